@@ -1,5 +1,6 @@
 """Wire family (C02 C10 C13 C16 + reading side of C01): TLC generates cases from WireGen.tla, wcase executes them."""
 import json
+import os
 
 from .common import Broken
 from . import tlc
@@ -13,9 +14,63 @@ def gen(ctx, mode, level, timeout=1800):
     return r
 
 
-def execute(ctx, path, every=1, timeout=1800):
-    binp = ctx.go_build("wcase")
+CRASH = ("fatal error:", "goroutine stack exceeds", "stack overflow", "unexpected signal", "SIGSEGV", "SIGBUS")
+
+
+def _run_wcase(ctx, binp, path, every, timeout):
     p = ctx.run([binp, "-in", path, "-every", str(every), "-seed", str(ctx.seed)], timeout=timeout)
+    crashed = p.returncode != 0 and any(k in p.stderr for k in CRASH)
+    return p, crashed
+
+
+def execute(ctx, path, every=1, timeout=1800):
+    """Runs wcase over the cases of a TLC output file.  A crash of the whole process (unbounded recursion, a fault outside
+    the guarded calls) is a finding about the library, not about the harness: the input file is bisected down to the single
+    case that kills the process, which is reported as a mismatch of property C02 with signature crash:<reason>."""
+    binp = ctx.go_build("wcase")
+    p, crashed = _run_wcase(ctx, binp, path, every, timeout)
+    crash_mism = []
+    if crashed:
+        lines = [l for l in open(path, errors="replace") if l and l[0] in '"{']
+        if every > 1:
+            lines = [l for i, l in enumerate(lines) if (i + ctx.seed) % every == 0]
+        wd = ctx.scratch("bisect")
+        lo, hi = 0, len(lines)
+        rounds = 0
+        while hi - lo > 1 and rounds < 40:
+            rounds += 1
+            mid = (lo + hi) // 2
+            part = os.path.join(wd, "part.out")
+            with open(part, "w") as fh:
+                fh.writelines(lines[lo:mid])
+            _, c1 = _run_wcase(ctx, binp, part, 1, timeout)
+            if c1:
+                hi = mid
+            else:
+                lo = mid
+        part = os.path.join(wd, "one.out")
+        with open(part, "w") as fh:
+            fh.writelines(lines[lo:hi])
+        p1, c1 = _run_wcase(ctx, binp, part, 1, timeout)
+        if not c1:
+            raise Broken("wcase crashed on %s but no single case reproduces the crash: %s" % (path, p.stderr[-1500:]))
+        reason = next((l.strip() for l in p1.stderr.splitlines() if any(k in l for k in CRASH)), "crash")
+        try:
+            rec = json.loads(json.loads(lines[lo]) if lines[lo][0] == '"' else lines[lo])
+        except Exception:
+            rec = {}
+        frames = [l.strip() for l in p1.stderr.splitlines() if "github.com/basecomplextech/spec" in l][:6]
+        crash_mism.append({"case": lo, "mode": rec.get("mode", "?"), "prop": "C02", "sig": "crash:" + reason[:80],
+                           "detail": "the process died on this input: %s; %s" % (reason, " <- ".join(frames)[:600]),
+                           "input": rec.get("x") or rec.get("enc")})
+        # the rest of the file without the killer, so that other findings are still reported
+        rest = os.path.join(wd, "rest.out")
+        with open(rest, "w") as fh:
+            fh.writelines(lines[:lo] + lines[hi:])
+        p, crashed = _run_wcase(ctx, binp, rest, 1, timeout)
+        if crashed:
+            # more than one killer: report the one found, the verdict is a violation anyway
+            return {"cases": {rec.get("mode", "?"): 1}, "accepted_by_parser": 0}, crash_mism
     if p.returncode != 0:
         raise Broken("wcase failed rc=%s: %s" % (p.returncode, p.stderr[-2000:]))
     mism, summary = [], None
@@ -29,7 +84,7 @@ def execute(ctx, path, every=1, timeout=1800):
             mism.append(d)
     if summary is None or not summary["cases"]:
         raise Broken("wcase executed no cases from %s" % path)
-    return summary, mism
+    return summary, crash_mism + mism
 
 
 def samples(path, n=3, keys=("mode", "how", "x", "enc", "v", "written", "reader", "spec")):
